@@ -176,7 +176,7 @@ def _layout(draw, names):
 
 @st.composite
 def specs(draw):
-    kind = draw(st.sampled_from(["glyf", "glyf", "var", "cff", "cff"]))
+    kind = draw(st.sampled_from(["glyf", "var", "cff", "cid", "glyf", "var", "cff", "cid", "cid"]))
     spec = {"kind": kind}
     if kind in ("glyf", "var"):
         vf = draw(gen_varfont.specs(max_glyphs=6))
@@ -184,6 +184,23 @@ def specs(draw):
             vf = dict(vf, axes=[], variations={}, avar=None)
         spec["vf"] = vf
         names = [".notdef"] + [g["name"] for g in vf["glyphs"]]
+    elif kind == "cid":
+        # CID-keyed CFF: 2-3 font dicts whose local subroutine 0 draws a different shape; every glyph calls it, so the
+        # outline of a glyph depends on its FDSelect entry; font dicts interleaved over the glyph order
+        ng = draw(_i(3, 9))
+        nfd = draw(_i(2, 3))
+        fds = [0] + [draw(_i(0, nfd - 1)) for _ in range(ng - 1)]
+        for k in range(nfd):
+            if k not in fds:
+                fds[1 + k % (ng - 1)] = k
+        spec["cid"] = {
+            "fd": fds,
+            "shapes": [[draw(_i(2, 8)) * 50, draw(_i(2, 8)) * 50, draw(_i(0, 4)) * 25] for _ in range(nfd)],
+            "nominal": [draw(st.sampled_from([0, 100, 500, 600])) for _ in range(nfd)],
+            "widths": [draw(_i(4, 20)) * 50 for _ in range(ng)],
+            "fdselect": draw(st.sampled_from([0, 3, 3])),
+        }
+        names = [".notdef"] + ["cid%05d" % i for i in range(1, ng)]
     else:
         c = draw(gen_t2.fonts(max_glyphs=6))
         spec["cff"] = c
@@ -200,7 +217,7 @@ def specs(draw):
         ex["cmapmac"] = draw(st.sampled_from([0, 6]))
     if opt() and ng > 2:
         ex["uvs"] = [[draw(st.sampled_from([0xFE00, 0xFE0F, 0xE0100])), 0x41, None], [draw(st.sampled_from([0xFE01, 0xE0101])), 0x41 + min(1, ng - 2), draw(_i(1, ng - 1))]]
-    if kind != "cff":
+    if kind in ("glyf", "var"):
         ex["post"] = draw(st.sampled_from([2, 2, 3]))
     lay = draw(_layout(names)) if opt(1) else None
     if lay:
@@ -216,12 +233,12 @@ def specs(draw):
         n = draw(_i(1, 3))
         pp = sorted(draw(st.lists(_i(5, 60), min_size=n, max_size=n, unique=True)))
         ex["gasp"] = {"version": draw(st.sampled_from([0, 1])), "ranges": [[p, draw(_i(0, 15))] for p in pp[:-1]] + [[0xFFFF, draw(_i(0, 15))]]}
-    if opt() and kind != "cff":
+    if opt() and kind in ("glyf", "var"):
         pp = sorted(draw(st.lists(_i(6, 40), min_size=1, max_size=3, unique=True)))
         ex["hdmx"] = [[p, [draw(_i(0, 60)) for _ in range(ng)]] for p in pp]
-    if opt() and kind != "cff":
+    if opt() and kind in ("glyf", "var"):
         ex["LTSH"] = [draw(_i(0, 255)) for _ in range(ng)]
-    if opt() and kind != "cff":
+    if opt() and kind in ("glyf", "var"):
         ex["cvt"] = [draw(_i(-500, 900)) for _ in range(draw(_i(1, 6)))]
         ex["fpgm"] = [0xB0, 0x00, 0x2C, 0xB0, draw(_i(0, 255)), 0x21, 0x2D]  # PUSHB[0] 0 FDEF PUSHB[0] n POP ENDF
         ex["prep"] = [0xB8, draw(_i(0, 255)), draw(_i(0, 255)), 0x21, 0xB1, 1, 2, 0x21, 0x21]
@@ -517,9 +534,94 @@ def fea_text(lay):
     return "\n".join(out) + "\n"
 
 
+def _cid_bytes(spec):
+    """CID-keyed CFF font assembled from a TTX description of the CFF table (FontBuilder cannot make one)."""
+    from fontTools.fontBuilder import FontBuilder
+    from fontTools.misc.psCharStrings import T2CharString
+    from fontTools.ttLib import TTFont
+
+    c = spec["cid"]
+    names = spec["names"]
+    fb = FontBuilder(1000, isTTF=False)
+    fb.setupGlyphOrder(names)
+    fb.setupCharacterMap({0x41 + i: n for i, n in enumerate(names) if i})
+    cs = T2CharString()
+    cs.program = ["endchar"]
+    fb.setupCFF("GenCID", {}, {n: cs for n in names}, {})
+    fb.setupHorizontalMetrics({n: (w, 0) for n, w in zip(names, c["widths"])})
+    fb.setupHorizontalHeader(ascent=800, descent=-200)
+    fb.setupNameTable({"familyName": "GenCID", "styleName": "Regular"})
+    fb.setupOS2()
+    fb.setupPost()
+    fds = ""
+    for k, ((w, h, slant), nom) in enumerate(zip(c["shapes"], c["nominal"])):
+        subr = "100 100 rmoveto %d hlineto %d %d rlineto %d hlineto" % (w, slant, h, -w)
+        fds += """
+        <FontDict index="%d">
+          <FontName value="GenCID-FD%d"/>
+          <FontMatrix value="0.001 0 0 0.001 0 0"/>
+          <Private>
+            <BlueValues value="-10 0 500 510"/>
+            <defaultWidthX value="0"/>
+            <nominalWidthX value="%d"/>
+            <Subrs>
+              <CharString index="0">
+                %s
+                return
+              </CharString>
+            </Subrs>
+          </Private>
+        </FontDict>""" % (k, k, nom, subr)
+    chars = ""
+    for i, n in enumerate(names):
+        fd = c["fd"][i]
+        chars += """
+        <CharString name="%s" fdSelectIndex="%d">
+          %d -107 callsubr
+          %d -60 rmoveto
+          %d hlineto
+          20 vlineto
+          %d hlineto
+          endchar
+        </CharString>""" % (n, fd, c["widths"][i] - c["nominal"][fd], 10 * i, 30 + 5 * i, -(30 + 5 * i))
+    ttx = """<?xml version="1.0" encoding="UTF-8"?>
+<ttFont sfntVersion="OTTO" ttLibVersion="4.0">
+  <CFF>
+    <major value="1"/>
+    <minor value="0"/>
+    <CFFFont name="GenCID">
+      <ROS Registry="Adobe" Order="Identity" Supplement="0"/>
+      <FullName value="GenCID"/>
+      <FontMatrix value="0.001 0 0 0.001 0 0"/>
+      <FontBBox value="0 -60 700 600"/>
+      <CIDFontVersion value="1.000"/>
+      <CIDFontRevision value="0"/>
+      <CIDFontType value="0"/>
+      <CIDCount value="%d"/>
+      <FDSelect format="%d"/>
+      <FDArray>%s
+      </FDArray>
+      <CharStrings>%s
+      </CharStrings>
+    </CFFFont>
+    <GlobalSubrs>
+    </GlobalSubrs>
+  </CFF>
+</ttFont>
+""" % (len(names), c["fdselect"], fds, chars)
+    font = fb.font
+    del font["CFF "]
+    font.importXML(io.StringIO(ttx))
+    buf = io.BytesIO()
+    font.save(buf)
+    return buf.getvalue()
+
+
 def _base_bytes(spec):
     if spec["kind"] in ("glyf", "var"):
         return gen_varfont.build(spec["vf"])
+    if spec["kind"] == "cid":
+        return _cid_bytes(spec)
     from . import ref_t2
 
     c = spec["cff"]
@@ -590,7 +692,7 @@ def build(spec):
             vmtx = newTable("vmtx")
             vmtx.metrics = {n: (a, t) for n, (a, t) in zip(names, ex["vert"])}
             f["vmtx"] = vmtx
-            if spec["kind"] == "cff":
+            if spec["kind"] in ("cff", "cid"):
                 vorg = newTable("VORG")
                 vorg.majorVersion, vorg.minorVersion = 1, 0
                 vorg.defaultVertOriginY = 880
